@@ -77,6 +77,8 @@ def box(sym: Sym, st: State):
         return v
     if k == "cls":
         return CONSTS.get("class", sym.py)
+    if k == "pyobj" and sym.py[0] in ("external", "module", "builtin"):
+        return CONSTS.get("ext", str(sym.py[1]))
     if k == "func":
         return CONSTS.get("func", str(sym.py if not isinstance(sym.py, tuple) else id(sym.py[0])))
     raise Unsupported(f"cannot box {sym}")
